@@ -8,7 +8,8 @@ Input line:
    "subs":[{"path":str,"kind":"cfg"|"content","text":{..},"src":str,"read_ok":bool,"wr":{..}},...]}
 `null`/absent overwrite and multifile mean "keyword not passed" (the model's defaults).
 "env" may hold "links":[[spelling,resolved],...]: every target goes through `Env.resolve` (`saveR`).
-A line with "branch":"fsspec" (+ "probe_ok":bool) runs `saveFsspec` instead.
+A line with "branch":"fsspec" runs `saveFsspec` instead ("branch":"fsspec-old" + "probe_ok":bool: the regression
+record `saveFsspecOld`).
 Output line: {"outcome":"ok"|kind, "fs":[[path,content],...], "early":bool, "written":nat}
 -/
 import Lean.Data.Json
@@ -104,10 +105,11 @@ def stepFsspec (j : Json) : Json :=
       probeOk := getBoolD j "probe_ok" true,
       dump := outcomeOf (getObj j "dump"),
       wr := wrOf (getObj j "wr") }
-  outJson (saveFsspec (fsOf j) i) (!i.formatOk || !i.probeOk) 0
+  if getStr j "branch" == "fsspec-old" then outJson (saveFsspecOld (fsOf j) i) (!i.formatOk || !i.probeOk) 0
+  else outJson (saveFsspec (fsOf j) i) true 0
 
 def step (j : Json) : Json :=
-  if getStr j "branch" == "fsspec" then stepFsspec j else
+  if getStr j "branch" == "fsspec" || getStr j "branch" == "fsspec-old" then stepFsspec j else
   let dflt : Input := { path := "", dump := .text "" }
   let e := getObj j "env"
   let env : Env := { noParent := getStrs e "noparent", roParent := getStrs e "ro", nonFile := getStrs e "nonfile",
